@@ -46,7 +46,8 @@ def _c03(run, drv, rng, tier):
 
 
 def _c08(run, drv, rng, tier):
-    from . import props_c08
+    from . import props_c08, props_text
+    props_text.check_text(run, drv, rng, tier)
     props_c08.check(run, drv, rng, tier)
 
 
@@ -152,8 +153,10 @@ def _c07(run, drv, rng, tier):
                                "C07", overdriven=True)
         if not q:
             props_c.check_compiled(run, drv, rng, sc, 80, 6,
-                                   [{"name": "asan", "cflags": ("-O1", "-fsanitize=address,undefined", "-fno-sanitize=alignment",
-                                                                "-fno-sanitize-recover=all", "-static-libasan")}], "C07")
+                                   # UBSan only: an AddressSanitizer-instrumented shared object cannot be loaded into the (uninstrumented)
+                                   # Python process through ctypes; memory outside the objects is watched by the guard zones
+                                   [{"name": "ubsan", "cflags": ("-O1", "-fsanitize=undefined", "-fno-sanitize=alignment",
+                                                                 "-fno-sanitize-recover=all")}], "C07")
         from . import props_op
         props_op.check_c07_opmode(run, drv, rng, sc, 8 if q else 120)
     props_c.check_py_overdrive(run, drv, rng, 40 if q else 800, 4 if q else 8)
@@ -309,14 +312,16 @@ PROPS = {
     "C08": {
         "modules": ["BpModel.Props.C08"],
         "theorems": ["Bp.C08.C08_accept_wf", "Bp.C08.C08_uint_width", "Bp.C08.C08_int_width", "Bp.C08.C08_array_cap",
-                     "Bp.C08.C08_limits_tied", "Bp.C08.C08_size_boundaries", "Bp.C08.C08_field_number_boundaries"],
+                     "Bp.C08.C08_limits_tied", "Bp.C08.C08_size_boundaries", "Bp.C08.C08_field_number_boundaries", "Bp.C08.C08_text_examples"],
         "explore": _c08,
-        "correspondence": "front.check (Lean reference of the documented rules) vs bitproto.parser.parse: verdict, rule family, file, line",
+        "correspondence": "front.check (Lean reference of the documented rules, abstract syntax) and text.check (Lex.lex -> Parse.parseText -> "
+                          "checkProgram on arbitrary TEXT) vs bitproto.parser.parse: verdict, rule family, file, line",
         "rule": "programs with shadowing, dotted paths, imports, constants, options (tools/front.py); ~60% carry exactly one "
                 "violation from a catalogue of 28 kinds (boundary values on both sides of every numeric limit, placement, "
                 "options, references, imports, traditional mode); compared on accept/reject, error-class family, file and "
                 "line; CLI exit status / stderr / absence of output on a sample; distinct by (rule, file, line) and by "
-                "elaborated message types",
+                "elaborated message types; text level: /repo's own .bitproto files and generated programs under character / token "
+                "mutations, random token sequences and truncations (see tools/props_text.py)",
         "assumptions": FRONT_ASSUME + ["the 'iff' against the real compiler rests on the correspondence; the theorems are about the Lean reference"],
     },
     "C11": {
@@ -383,7 +388,7 @@ PROPS = {
     "C09": {
         "modules": ["BpModel.Props.C09"],
         "theorems": ["Bp.C09.C09_string_literal_total", "Bp.C09.C09_expr_parser_fuel", "Bp.C09.C09_tokenizer_fuel", "Bp.C09.C09_eval_classified",
-                     "Bp.C09.C09_import_fuel", "Bp.C09.C09_escapes_tied"],
+                     "Bp.C09.C09_import_fuel", "Bp.C09.C09_escapes_tied", "Bp.C09.C09_lexer_total", "Bp.C09.C09_token_lines"],
         "explore": _c09,
         "correspondence": "exception class escaping parse() / render_string() and wall clock per input (worker pool under an interval timer); real CLI exit "
                           "status and stderr on a sample; t_STRING_LITERAL vs Lexer.lexString and constant expressions vs Expr.evalText (native driver)",
